@@ -149,8 +149,8 @@ class GWCSAPIMixin(BaseHighLevelWCS, BaseLowLevelWCS):
         """
         result = self.world_to_pixel_values(*world_arrays)
         if self.pixel_n_dim != 1:
-            result = result[::-1]
-        return result
+            return tuple(utils._toindex(r) for r in result[::-1])
+        return utils._toindex(result)
 
     @property
     def array_shape(self):
